@@ -179,22 +179,30 @@ int fb_gen_common_c_builder_header(fb_output_t *out)
         "{ return N ## _add(B, NS ## buffer_end(B, TN ## _end(B))); }\\\n"
         "static inline int N ## _end_pe_as_root(NS ## builder_t *B)\\\n"
         "{ return N ## _add(B, NS ## buffer_end(B, TN ## _end_pe(B))); }\\\n"
+        /*
+         * A nested buffer needs its own buffer frame: the frame records
+         * where the nested buffer ends (the vector length would otherwise
+         * extend over everything the parent has emitted so far).
+         */
         "static inline int N ## _create_as_root(NS ## builder_t *B __ ## TN ## _formal_args)\\\n"
-        "{ return N ## _add(B, flatcc_builder_create_buffer(B, FID, 0,\\\n"
-        "  TN ## _create(B __ ## TN ## _call_args), A, flatcc_builder_is_nested)); }\\\n"
+        "{ return NS ## buffer_start(B, FID) ? -1 :\\\n"
+        "  N ## _add(B, NS ## buffer_end(B, TN ## _create(B __ ## TN ## _call_args))); }\\\n"
         "static inline int N ## _create_as_typed_root(NS ## builder_t *B __ ## TN ## _formal_args)\\\n"
-        "{ return N ## _add(B, flatcc_builder_create_buffer(B, TFID, 0,\\\n"
-        "  TN ## _create(B __ ## TN ## _call_args), A, flatcc_builder_is_nested)); }\\\n"
+        "{ return NS ## buffer_start(B, TFID) ? -1 :\\\n"
+        "  N ## _add(B, NS ## buffer_end(B, TN ## _create(B __ ## TN ## _call_args))); }\\\n"
         "static inline int N ## _nest(NS ## builder_t *B, void *data, size_t size, uint16_t align)\\\n"
         "{ return N ## _add(B, flatcc_builder_create_vector(B, data, size, 1,\\\n"
         "  align < A ? A : align, FLATBUFFERS_COUNT_MAX(1))); }\\\n"
         "static inline int N ## _typed_nest(NS ## builder_t *B, void *data, size_t size, uint16_t align)\\\n"
         "{ return N ## _add(B, flatcc_builder_create_vector(B, data, size, 1,\\\n"
         "  align < A ? A : align, FLATBUFFERS_COUNT_MAX(1))); }\\\n"
+        /* TN ## _clone_as_root creates a top-level buffer header: a nested one needs the ubyte vector length. */
         "static inline int N ## _clone_as_root(NS ## builder_t *B, TN ## _struct_t p)\\\n"
-        "{ return N ## _add(B, TN ## _clone_as_root(B, p)); }\\\n"
+        "{ return NS ## buffer_start(B, FID) ? -1 :\\\n"
+        "  N ## _add(B, NS ## buffer_end(B, TN ## _clone(B, p))); }\\\n"
         "static inline int N ## _clone_as_typed_root(NS ## builder_t *B, TN ## _struct_t p)\\\n"
-        "{ return N ## _add(B, TN ## _clone_as_typed_root(B, p)); }\n"
+        "{ return NS ## buffer_start(B, TFID) ? -1 :\\\n"
+        "  N ## _add(B, NS ## buffer_end(B, TN ## _clone(B, p))); }\n"
         "\n",
         nsc);
 
